@@ -183,6 +183,10 @@ def cases(tier):
     for lab, names in (("C10", ORDERS[1]), ("C12_a", ORDERS[1]), ("C12_b", ORDERS[1]), ("C21_b", ORDERS[2]), ("C30", ORDERS[3]),
                        ("C34_a", ORDERS[3]), ("C45_b", ORDERS[4]), ("C56_a", ORDERS[5])):
         out.append((f"merge_additive[{lab}]", merge_additive(names, lab), "QF_NRA"))
+    # an update of lower order than the prior's highest order must leave the higher orders in place
+    out.append(("merge_additive[C12_a into orders 1+3]", merge_additive(ORDERS[1] + ORDERS[3], "C12_a"), "QF_NRA"))
+    out.append(("merge_additive[C10 into orders 1+2]", merge_additive(ORDERS[1] + ORDERS[2], "C10"), "QF_NRA"))
+    out.append(("merge_additive[C21_a into orders 2+4]", merge_additive(ORDERS[2] + ORDERS[4], "C21_a"), "QF_NRA"))
     out.append(("aliases[defocus,astigmatism,astigmatism_angle]", defocus_alias(["defocus", "astigmatism", "astigmatism_angle"]), "QF_LRA"))
     out.append(("aliases[coma,coma_angle,Cs,C5]", defocus_alias(["coma", "coma_angle", "Cs", "C5"]), "QF_LRA"))
     out.append(("aliases[canonical]", defocus_alias(["C10", "C12", "phi12", "C30"]), "QF_LRA"))
